@@ -271,10 +271,11 @@ func render(c taintCase) (out outputs, kinds map[int]string, fl *harness.Failure
 		return nil, nil, harness.Failf("generator-text-rejected", "%v", err)
 	}
 	diffs := func(label, vis string) *harness.Failure {
-		for _, show := range []string{html.DiffPageShowAll, html.DiffPageShowOnlyMatches} {
+		// (one comparison rendered with every -show and -sort value, as a caller would who lets
+		// the user switch views)
+		comparisons := doc.Individuals().Compare(doc2.Individuals(), gedcom.NewIndividualNodesCompareOptions())
+		for _, show := range []string{html.DiffPageShowOnlyMatches, html.DiffPageShowSubset, html.DiffPageShowAll} {
 			for _, sortBy := range []string{html.DiffPageSortWrittenName, html.DiffPageSortHighestSimilarity} {
-				opts := gedcom.NewIndividualNodesCompareOptions()
-				comparisons := doc.Individuals().Compare(doc2.Individuals(), opts)
 				progress := make(chan gedcom.Progress, 1000000)
 				page := html.NewDiffPage(comparisons, &gedcom.FilterFlags{}, "", show, sortBy, progress, gedcom.NewIndividualNodesCompareOptions(), html.LivingVisibility(vis))
 				var buf bytes.Buffer
@@ -325,6 +326,12 @@ func render(c taintCase) (out outputs, kinds map[int]string, fl *harness.Failure
 		if err != nil {
 			continue
 		}
+		// (the result goes through the other formatters first: what they leave behind in the
+		// process - pooled encoders, settings - must not weaken the HTML formatter)
+		var scratch bytes.Buffer
+		_ = (&q.JSONFormatter{Writer: &scratch}).Write(v)
+		_ = (&q.PrettyJSONFormatter{Writer: &scratch}).Write(v)
+		_ = (&q.CSVFormatter{Writer: &scratch}).Write(v)
 		var buf bytes.Buffer
 		_ = (&q.HTMLFormatter{Writer: &buf}).Write(v)
 		out[fmt.Sprintf("query-html:%d", i)] = buf.Bytes()
